@@ -340,6 +340,14 @@ def shard(ctx):
             ctx.violation(sig, d, case)
 
     run()
+    if ctx.shard < len(VERY_DEEP):
+        # operations far deeper than the interpreter's stack allows to walk recursively (chained fragments, each 50 levels):
+        # still "reports an error exactly when the depth exceeds the limit, raises nothing"
+        case = {"very_deep": VERY_DEEP[ctx.shard]}
+        for sig, d in check_very_deep(case):
+            ctx.violation(sig, d, case)
+        ctx.case(key=("very-deep", VERY_DEEP[ctx.shard]), nontrivial=True, sample=case)
+        ctx.event("very-deep-operation")
     if ctx.tier == "thorough" and ctx.shard < 4:
         enumerate_wrappings(ctx)
 
@@ -379,7 +387,35 @@ def enumerate_wrappings(ctx):
     ctx.exhaustive["fragment-wrappings:%d" % (ctx.shard % len(shapes))] = n
 
 
+VERY_DEEP = [4, 12, 20, 30]   # number of chained fragments of 50 levels each
+
+
+def check_very_deep(case):
+    from py_gql.lang import parse
+    from py_gql.utilities import MaxDepthValidationRule
+    n = case["very_deep"]
+    text = "{ t { ...F0 } } " + " ".join("fragment F%d on T { %s ...F%d %s }" % (i, "t { " * 50, i + 1, " }" * 50) for i in range(n)) \
+           + " fragment F%d on T { n }" % n
+    depth = 1 + 50 * n
+    vios = []
+    for limit in (5, depth - 1, depth, depth + 5):
+        try:
+            errs = MaxDepthValidationRule(limit)(schema(), parse(text), {})
+        except BaseException as e:  # noqa
+            vios.append(("C19/raises/%s/very-deep-operation" % type(e).__name__, "fragments=%d depth=%d limit=%d" % (n, depth, limit)))
+            continue
+        if bool(errs) != (depth > limit) and limit < depth:
+            vios.append(("C19/deep-operation-not-reported/very-deep-operation", "fragments=%d depth=%d limit=%d" % (n, depth, limit)))
+        if limit >= depth and errs and n <= 4:
+            vios.append(("C19/operation-reported-without-exceeding/deep-but-measurable", "fragments=%d depth=%d limit=%d" % (n, depth, limit)))
+        # limit >= depth: an operation the rule cannot measure may be reported as too deep (it cannot know better); only an
+        # operation it *can* measure has to pass
+    return vios
+
+
 def replay(case):
+    if "very_deep" in case:
+        return check_very_deep(case)
     return check(case)[0]
 
 
